@@ -67,6 +67,11 @@ def gen_rt(rng, tier):
             table = [[bits(float(rng.choice([0, 1, 1, 2, -3, 40, 2**53, -(2**31)]))) for _ in range(m)] for _ in range(ns)]
             if rng.random() < 0.7:
                 table[rng.randrange(ns)][rng.randrange(m)] = bits(-0.0)
+        if t == n // 2 or (tier != "quick" and t % 2000 == 7):
+            # a very wide table (more columns than numpy prints without summarising)
+            m = rng.choice([1001, 1200, 1500])
+            names = [f"c{j}" for j in range(m)]
+            table = [[bits(rand_double(rng)) for _ in range(m)] for _ in range(ns)]
         yield {"samples": [f"s{i}" for i in range(ns)], "names": names, "bits": table, "gz": rng.random() < 0.2, "cov": rng.random() < 0.3, "subset": rng.choice([None, None, "some"]), "seed": rng.randrange(2**31)}
 
 
